@@ -6,7 +6,7 @@
 package manager
 
 //@ func (*manager.Reconciler).Reconcile
-//@ props C14
+//@ props C14 C02
 //@ sweep
 //@ let $p = result field:manager.Reconciler.newPackage
 //@ let $revs = result (v1.PackageRevisionList).GetRevisions
@@ -52,8 +52,14 @@ package manager
 //@   assert [C14:identifier-recorded-with-its-revision] $resolved != "" && $p.GetCurrentRevision() == $resolved && $id == $p.GetSource()
 //@ site (v1.Package).SetCurrentRevision(_, $name)
 //@   assert [C14:current-revision-is-the-resolved-one] $name == $resolved && $resolved != ""
+// C02: a revision is written only through Apply with the must-be-controllable-by-this-package
+// option; the one direct Update (common labels) is of the revision that was just applied so.
+//@ ghost appliedCurrent bool = false
+//@ optional site (client.Writer).Update(_, _, $o, $uo...) as direct-update
+//@   assert [C02:direct-update-only-of-the-revision-just-applied-under-the-controllability-check] appliedCurrent && $o == pr
 //@ site (resource.Applicator).Apply(_, _, $o, $opts...) as Apply-current
 //@   where $o.GetName() == $p.GetCurrentRevision()
+//@   update appliedCurrent = err == nil && $o == pr
 //@   assert [C14:deactivations-persisted-first] deactivationsPersisted
 //@   witness n = len($revs)
 //@   witness nolimit = $p.GetRevisionHistoryLimit() == nil
